@@ -1,6 +1,7 @@
 #!/bin/bash
 # Commit /verif only if the registered setup_cmd builds (sub-sessions may be mid-edit).
 cd /verif || exit 1
+/venv/bin/python harness/regen_generated.py || exit 1   # committed Generated/*.lean = translation of /repo's working tree
 python3 harness/mkmanifest.py || exit 1
 python3 harness/mkdesigntables.py || exit 1
 cmd=$(python3 -c "import json;print(json.load(open('MANIFEST.json'))['setup_cmd'])")
